@@ -31,7 +31,10 @@ Emit(t) == /\ Len(sched) < MaxLen
            /\ emitted' = [emitted EXCEPT ![t] = @ + 1]
            /\ sched' = Append(sched, t)
 Next == \E t \in Tasks : Internal(t) \/ Emit(t)
-NextSim == \E t \in {RandomElement(Tasks)} : \E c \in {RandomElement(1..2)} : IF c = 1 /\ emitted[t] < Need[t] THEN Emit(t) ELSE Internal(t)
+\* a random element, drawn anew at every evaluation: the set mentions the state because TLC evaluates an expression
+\* without variables once and for all (a walk would repeat one choice for ever)
+Pick(S) == RandomElement(IF Len(sched) >= 0 THEN S ELSE {})
+NextSim == \E t \in {Pick(Tasks)} : \E c \in {Pick(1..2)} : IF c = 1 /\ emitted[t] < Need[t] THEN Emit(t) ELSE Internal(t)
 Spec == Init /\ [][Next]_vars
 
 \* what a task has emitted is a prefix of its own result, whatever the others did
